@@ -116,6 +116,18 @@ def write_status():
              'Written by `tools/build_regress.py` (quick tier, VERIF_SEED=1, scratch copy of /repo with the change applied).',
              '`exit` 1 = the check reports a VIOLATION, 0 = it does not.', '',
              '| change | check | exit | failure signatures | first |', '|---|---|---|---|---|']
+    # rows of an earlier run are kept for the changes that this run did not touch (--only)
+    path = os.path.join(HERE, 'seeded', 'STATUS.md')
+    touched = {r['change'] for r in STATUS}
+    old_rows = []
+    if os.path.exists(path):
+        for line in open(path):
+            cells = [c.strip() for c in line.strip().strip('|').split(' | ')]
+            if len(cells) >= 5 and cells[0].startswith(('seed-', 'mutant-')) and cells[0] not in touched:
+                old_rows.append({'change': cells[0], 'check': cells[1], 'exit': None if cells[2] == 'None' else int(cells[2]),
+                                 'signatures': int(cells[3]), 'first': ' | '.join(cells[4:]).replace('\\|', '|')})
+    STATUS[:0] = old_rows
+    STATUS.sort(key=lambda r: (r['change'].startswith('mutant-'), r['change'], r['check']))
     for r in STATUS:
         lines.append('| %s | %s | %s | %d | %s |' % (r['change'], r['check'], r['exit'], r['signatures'], r['first'].replace('|', '\\|')))
     caught = {r['change'] for r in STATUS if r['exit'] == 1}
